@@ -41,6 +41,7 @@ type Op struct {
 	Same    bool     `json:"same,omitempty"`    // pub: the payload of the previous publish on this topic again (only QoS and flags differ)
 	Dup     bool     `json:"dup,omitempty"`     // pub (QoS > 0): the PUBLISH carries DUP=1 (a retransmission whose first copy was lost)
 	EOFData bool     `json:"eofdata,omitempty"` // connect: transport may return last bytes together with EOF
+	KA0     bool     `json:"ka0,omitempty"`     // connect: keep-alive 0 in the CONNECT (no keep-alive; the server substitutes its own)
 	Pipe    int      `json:"pipe,omitempty"`    // connect: the CONNECT is written together with what follows, without waiting for the CONNACK: 1 = a PINGREQ, 2 = the DISCONNECT (the whole life of the connection in one write)
 	Refuse  bool     `json:"refuse,omitempty"`  // isub: the callback returns an error for what it is handed during the Subscribe call; the application then unsubscribes
 }
@@ -446,6 +447,10 @@ func (e *exec) doConnect(ci int, clean bool, w *Will) {
 }
 
 func (e *exec) doConnectOpt(ci int, clean bool, w *Will, eofData bool, pipe int) {
+	e.doConnectKA(ci, clean, w, eofData, pipe, false)
+}
+
+func (e *exec) doConnectKA(ci int, clean bool, w *Will, eofData bool, pipe int, ka0 bool) {
 	if e.conns[ci] != nil {
 		e.doEnd(ci, "close")
 		if e.abort {
@@ -457,6 +462,10 @@ func (e *exec) doConnectOpt(ci int, clean bool, w *Will, eofData bool, pipe int)
 		e.class("transport-returns-data-with-eof")
 	}
 	cp := wire.ConnectPacket(clientID(ci), clean, 120)
+	if ka0 {
+		cp.KeepAlive = 0
+		e.class("connect-with-keep-alive-0")
+	}
 	var mw *will
 	if w != nil {
 		// the will payload depends on the will's parameters only, so that a
@@ -1349,7 +1358,7 @@ func runPlan(p Plan, known func(string) bool) outcome {
 		}
 		switch op.K {
 		case "connect":
-			e.doConnectOpt(op.C, op.Clean, op.Will, op.EOFData, op.Pipe)
+			e.doConnectKA(op.C, op.Clean, op.Will, op.EOFData, op.Pipe, op.KA0)
 		case "sub":
 			e.doSubscribe(op)
 		case "unsub":
